@@ -36,9 +36,10 @@ fn enable_index(repo: &Arc<ReadonlyRepo>, max: u32) -> Arc<ReadonlyRepo> {
     repo.reload_at(repo.operation()).block_on().unwrap()
 }
 
-fn files_query(repo: &Arc<ReadonlyRepo>, p: &[u64]) -> Result<BTreeSet<CommitId>, String> {
+fn files_query(repo: &Arc<ReadonlyRepo>, p: &[u64]) -> Result<BTreeSet<CommitId>, String> { files_query_dyn(repo.as_ref(), p) }
+fn files_query_dyn(repo: &dyn jj_lib::repo::Repo, p: &[u64]) -> Result<BTreeSet<CommitId>, String> {
     let expr = ResolvedRevsetExpression::filter(RevsetFilterPredicate::File(FilesetExpression::prefix_path(repo_path_of(p))));
-    let rs = expr.evaluate(repo.as_ref()).map_err(|e| e.to_string())?;
+    let rs = expr.evaluate(repo).map_err(|e| e.to_string())?;
     rs.stream().collect::<Vec<_>>().block_on().into_iter().map(|r| r.map_err(|e| e.to_string())).collect()
 }
 
@@ -90,7 +91,10 @@ fn gen_diamond(r: &mut Rng) -> Hist {
 }
 
 fn write_hist(env: &mut Env, tx: &mut jj_lib::transaction::Transaction, h: &Hist, tag: &str, from: usize, real: &mut Vec<Commit>) {
-    for (i, (ps, ts)) in h.commits.iter().enumerate().skip(from) {
+    write_range(env, tx, h, tag, from, h.commits.len(), real)
+}
+fn write_range(env: &mut Env, tx: &mut jj_lib::transaction::Transaction, h: &Hist, tag: &str, from: usize, to: usize, real: &mut Vec<Commit>) {
+    for (i, (ps, ts)) in h.commits.iter().enumerate().take(to).skip(from) {
         let tree = env.conv.merged(ts);
         let pids: Vec<CommitId> = ps.iter().map(|p| real[*p].id().clone()).collect();
         real.push(tx.repo_mut().new_commit(pids, tree).set_description(format!("c22 {tag} commit {i}")).write().block_on().unwrap());
@@ -243,6 +247,264 @@ fn batch(accept: bool, out: &mut Out, r: &mut Rng, batch_no: u64, size: usize) {
     let _ = Merge::resolved(0);
 }
 
+// ---------------------------------------------------------------------------------------------------
+// Concurrent operations whose changed-path indexes cover different commit ranges (index enabled
+// part-way on one side), merged in both orders.  `DefaultMutableIndex::merge_in` copies the other
+// side's entries positionally: an entry may only be appended while every earlier merged-in commit
+// has one.
+// ---------------------------------------------------------------------------------------------------
+
+/// one side of the fork: `pre` of its commits, then (optionally) `build_changed_path_index_at_operation`
+/// with `max_commits = enable` at its own operation, then the rest of its commits
+#[derive(Clone, Copy, Debug)]
+struct SidePlan { pre: usize, enable: Option<u32> }
+
+#[derive(Clone, Debug)]
+struct Plan {
+    /// commits shared by both sides (written before the fork), and whether the index was enabled before them
+    common: usize, common_indexed: bool,
+    a: SidePlan, b: SidePlan,
+    /// chain lengths of the sides (fixed scenarios); `random`: sides are random histories instead
+    na: usize, nb: usize, random: bool,
+    /// merge B's operation into a transaction based on A's (else the other way round)
+    b_into_a: bool,
+    /// commits written on top of the merged operation; rebuild of the merged index afterwards
+    after: usize, rebuild: Option<u32>,
+}
+
+fn show_plan(p: &Plan) -> String {
+    let en = |e: Option<u32>| match e { None => "never".to_string(), Some(u32::MAX) => "all".to_string(), Some(m) => m.to_string() };
+    format!("common={}{} a:[pre={} enable={} n={}] b:[pre={} enable={} n={}] merge={} after={} rebuild={}{}",
+        p.common, if p.common_indexed { "(indexed)" } else { "" }, p.a.pre, en(p.a.enable), p.na, p.b.pre, en(p.b.enable), p.nb,
+        if p.b_into_a { "b-into-a" } else { "a-into-b" }, p.after, p.rebuild.map_or("no".to_string(), |m| en(Some(m))), if p.random { " random-histories" } else { "" })
+}
+
+/// histories of one writer; `own_from[j]`: first commit of history `j` that this writer writes itself
+/// (earlier ones are the shared commits the chain continues)
+struct Side { ws: Vec<Written>, tags: Vec<String>, own_from: Vec<usize> }
+impl Side {
+    fn new() -> Side { Side { ws: vec![], tags: vec![], own_from: vec![] } }
+    fn push(&mut self, hist: Hist, tag: String, real_prefix: Vec<Commit>) {
+        self.own_from.push(real_prefix.len());
+        self.ws.push(Written { hist, real: real_prefix });
+        self.tags.push(tag);
+    }
+    fn flat(&self) -> Vec<(usize, usize)> {
+        self.ws.iter().enumerate().flat_map(|(j, w)| (self.own_from[j]..w.hist.commits.len()).map(move |i| (j, i))).collect()
+    }
+    fn write(&mut self, env: &mut Env, tx: &mut jj_lib::transaction::Transaction, items: &[(usize, usize)]) {
+        for (j, i) in items {
+            let w = &mut self.ws[*j];
+            write_range(env, tx, &w.hist, &self.tags[*j], *i, *i + 1, &mut w.real);
+        }
+    }
+}
+
+/// appends `n` commits to the chain; commit number `c` (counted over the whole scenario) rewrites the
+/// file at path `[c % 3, (c / 3) % 3]`, so consecutive commits record different path lists
+fn extend_chain(h: &mut Hist, n: usize, counter: &mut usize) {
+    for _ in 0..n {
+        let c = *counter; *counter += 1;
+        let parent = h.commits.len() - 1;
+        let mut t = h.commits[parent].1.last().unwrap().clone();
+        let p = [(c % 3) as u64, ((c / 3) % 3) as u64];
+        let id = match get(&t, &p) { Some(V::F(id, _)) => (id + 1 + 3 * (c as u64 % 2)) % 9, _ => (2 * c as u64 + 1) % 9 };
+        set(&mut t, &p, Some(V::F(id, false)));
+        h.commits.push((vec![parent], vec![t]));
+    }
+}
+fn copy_hist(h: &Hist) -> Hist { Hist { commits: h.commits.clone() } }
+
+fn run_side(env: &mut Env, base: &Arc<ReadonlyRepo>, side: &mut Side, plan: SidePlan) -> Arc<ReadonlyRepo> {
+    let flat = side.flat();
+    let pre = plan.pre.min(flat.len());
+    // the first operation is written even when empty: the index is then enabled at an operation of this side only
+    let mut tx = base.start_transaction();
+    side.write(env, &mut tx, &flat[..pre]);
+    let mut repo = tx.commit("c22 side, before enabling").block_on().unwrap();
+    if let Some(m) = plan.enable { repo = enable_index(&repo, m); }
+    if pre < flat.len() {
+        let mut tx = repo.start_transaction();
+        side.write(env, &mut tx, &flat[pre..]);
+        repo = tx.commit("c22 side, after enabling").block_on().unwrap();
+    }
+    repo
+}
+
+fn descriptions(store: &Arc<jj_lib::store::Store>, ids: &BTreeSet<CommitId>) -> BTreeSet<String> {
+    ids.iter().map(|id| store.get_commit(id).map(|c| c.description().to_string()).unwrap_or_else(|e| format!("unreadable {e}"))).collect()
+}
+
+fn scenario(env: &mut Env, env_c: &mut Env, out: &mut Out, r: &mut Rng, scn: u64, plan: &Plan) {
+    let sc = env.sc;
+    let what = show_plan(plan);
+    let root_repo = env.repo.repo.clone(); // the initial operation: root commit only, no changed-path index
+    let root = root_repo.store().root_commit();
+    let mut counter = (scn as usize) * 5;
+    // shared part
+    let mut base = root_repo.clone();
+    let mut common = Side::new();
+    let mut common_h = Hist { commits: vec![(vec![], vec![vec![]])] };
+    extend_chain(&mut common_h, plan.common, &mut counter);
+    common.push(copy_hist(&common_h), format!("p{scn}.c.{sc}"), vec![root.clone()]);
+    if plan.common_indexed {
+        base = base.start_transaction().commit("c22 fork base").block_on().unwrap();
+        base = enable_index(&base, 0);
+    }
+    if plan.common > 0 {
+        let mut tx = base.start_transaction();
+        let flat = common.flat();
+        common.write(env, &mut tx, &flat);
+        base = tx.commit("c22 shared commits").block_on().unwrap();
+    }
+    // the two writers
+    let mut sides = [Side::new(), Side::new()];
+    for (k, side) in sides.iter_mut().enumerate() {
+        let name = ["a", "b"][k];
+        let n = if k == 0 { plan.na } else { plan.nb };
+        let hists = if plan.random { r.range(1, 2) } else { 1 };
+        for j in 0..hists {
+            let tag = format!("p{scn}.{name}{j}.{sc}");
+            match if plan.random { r.below(4) } else { 0 } {
+                0 => {
+                    let mut h = copy_hist(&common_h);
+                    extend_chain(&mut h, if plan.random { r.range(1, 4) } else { n }, &mut counter);
+                    side.push(h, tag, common.ws[0].real.clone());
+                }
+                1 => side.push(gen_diamond(r), tag, vec![root.clone()]),
+                _ => side.push(gen_case(env, r, false).0, tag, vec![root.clone()]),
+            }
+        }
+    }
+    let mut plan = plan.clone();
+    if plan.random {
+        // the enabling point anywhere in the side's commits, mostly strictly inside
+        for (k, sp) in [&mut plan.a, &mut plan.b].into_iter().enumerate() {
+            let len = sides[k].flat().len();
+            sp.pre = if len >= 2 && r.chance(3, 4) { r.range(1, len - 1) } else { r.below(len + 1) };
+        }
+    }
+    let [side_a, side_b] = &mut sides;
+    let repo_a = run_side(env, &base, side_a, plan.a);
+    let repo_b = run_side(env, &base, side_b, plan.b);
+    let (x, y) = if plan.b_into_a { (&repo_a, &repo_b) } else { (&repo_b, &repo_a) };
+    let merged = guard(|| -> Result<Arc<ReadonlyRepo>, String> {
+        let mut tx = x.start_transaction();
+        tx.merge_operation(base.operation(), y.operation()).block_on().map_err(|e| e.to_string())?;
+        tx.commit("c22 merge of concurrent operations").block_on().map_err(|e| e.to_string())
+    });
+    let mut merged = match merged {
+        Ok(Ok(m)) => m,
+        Ok(Err(e)) => { out.oracle_fail("changed-paths:merging-operations-failed", format!("{what}: {e}")); return; }
+        Err(e) => { out.oracle_fail("changed-paths:merging-operations-panicked", format!("{what}: {e}")); return; }
+    };
+    out.tally("concurrent.merge", if plan.b_into_a { "b-into-a" } else { "a-into-b" });
+    // more commits on top of the merged operation
+    let mut after = Side::new();
+    if plan.after > 0 {
+        let h = if plan.random && r.chance(1, 2) { gen_case(env, r, false).0 } else { let mut h = Hist { commits: vec![(vec![], vec![vec![]])] }; extend_chain(&mut h, plan.after, &mut counter); h };
+        after.push(h, format!("p{scn}.z.{sc}"), vec![root.clone()]);
+        let mut tx = merged.start_transaction();
+        let flat = after.flat();
+        after.write(env, &mut tx, &flat);
+        merged = tx.commit("c22 on top of the merge").block_on().unwrap();
+    }
+    // the same commits in a repository that never had the index (not committed: the scan runs on the transaction)
+    let repo_c = env_c.repo.repo.clone();
+    let root_c = repo_c.store().root_commit();
+    let mut tx_c = repo_c.start_transaction();
+    let mut common_c = vec![root_c.clone()];
+    write_range(env_c, &mut tx_c, &common.ws[0].hist, &common.tags[0], 1, common.ws[0].hist.commits.len(), &mut common_c);
+    for side in [&sides[0], &sides[1], &after] {
+        for (j, w) in side.ws.iter().enumerate() {
+            let mut real_c = common_c[..side.own_from[j]].to_vec();
+            write_range(env_c, &mut tx_c, &w.hist, &side.tags[j], side.own_from[j], w.hist.commits.len(), &mut real_c);
+        }
+    }
+    let probes: Vec<Vec<u64>> = vec![vec![0], vec![1], vec![2], vec![0, 1], vec![1, 0], vec![2, 2]];
+    let scan: Vec<_> = probes.iter().map(|p| files_query_dyn(tx_c.repo(), p).map(|ids| descriptions(repo_c.store(), &ids))).collect();
+
+    let mut rounds = vec![(merged.clone(), "merged")];
+    if let Some(m) = plan.rebuild { rounds.push((enable_index(&merged, m), "merged-rebuilt")); }
+    for (repo, mode) in rounds {
+        let (mut indexed, mut total) = (0, 0);
+        for side in [&common, &sides[0], &sides[1], &after] {
+            for (j, w) in side.ws.iter().enumerate() {
+                for i in side.own_from[j]..w.hist.commits.len() {
+                    total += 1;
+                    if matches!(guard(|| repo.index().changed_paths_in_commit(w.real[i].id()).block_on()), Ok(Ok(Some(_)))) { indexed += 1; }
+                    check_commit(env, out, &repo, w, i, mode);
+                }
+            }
+        }
+        out.tally(&format!("{mode}.coverage"), if indexed == 0 { "none" } else if indexed == total { "all" } else { "part" });
+        for (p, s) in probes.iter().zip(&scan) {
+            match (s, files_query(&repo, p).map(|ids| descriptions(repo.store(), &ids))) {
+                (Ok(a), Ok(b)) => {
+                    if *a == b { out.oracle_ok(); out.tally("concurrent.files-query", if a.is_empty() { "same:empty" } else { "same:nonempty" }); }
+                    else {
+                        let only_scan: Vec<_> = a.difference(&b).collect();
+                        let only_index: Vec<_> = b.difference(a).collect();
+                        out.oracle_fail("changed-paths:files-query-differs-with-index", format!("{what} ({mode}): files({}) selects {only_scan:?} only without the index, {only_index:?} only with it", show_path(p)));
+                    }
+                }
+                (Err(e), _) => out.oracle_fail("changed-paths:files-query-error", e.clone()),
+                (_, Err(e)) => out.oracle_fail("changed-paths:files-query-error", e),
+            }
+        }
+    }
+    out.nontrivial(("concurrent", what));
+}
+
+/// the fixed scenarios at the head of the run: every pairing of side kinds, both merge orders
+fn fixed_plans() -> Vec<Plan> {
+    let contig = SidePlan { pre: 0, enable: Some(0) };
+    let partial = |j: usize| SidePlan { pre: j, enable: Some(0) };
+    let partial1 = |j: usize| SidePlan { pre: j, enable: Some(1) };
+    let never = SidePlan { pre: 0, enable: None };
+    let full = |j: usize| SidePlan { pre: j, enable: Some(u32::MAX) };
+    let mut plans = vec![];
+    let mut k = 0usize;
+    let mut add = |common: usize, common_indexed: bool, a: SidePlan, b: SidePlan, plans: &mut Vec<Plan>| {
+        for b_into_a in [true, false] {
+            k += 1;
+            plans.push(Plan { common, common_indexed, a, b, na: a.pre + 1 + k % 2, nb: b.pre + 2, random: false, b_into_a,
+                              after: k % 2, rebuild: if k % 3 == 0 { Some(u32::MAX) } else { None } });
+        }
+    };
+    // the smallest instance first: A indexed from its first commit, B enables the index after its first commit
+    add(0, false, contig, partial(1), &mut plans);
+    for a in [contig, partial(1), never, full(1)] {
+        for b in [contig, partial(1), partial(2), partial1(2), never, full(1)] {
+            add(0, false, a, b, &mut plans);
+        }
+    }
+    for b in [partial(1), partial(2), partial1(2)] { add(2, false, contig, b, &mut plans); }
+    add(1, true, contig, partial(1), &mut plans);
+    plans
+}
+
+fn random_plan(r: &mut Rng) -> Plan {
+    let enable = |r: &mut Rng| *r.pick(&[Some(0), Some(0), Some(0), Some(1), Some(u32::MAX), None]);
+    Plan { common: r.below(3), common_indexed: r.chance(1, 5), a: SidePlan { pre: 0, enable: enable(r) }, b: SidePlan { pre: 0, enable: enable(r) },
+           na: 0, nb: 0, random: true, b_into_a: r.chance(1, 2), after: r.below(3), rebuild: *r.pick(&[None, None, Some(2), Some(u32::MAX)]) }
+}
+
+fn concurrent_stream(cfg: &Cfg, out: &mut Out) {
+    let mut r = cfg.rng(2201);
+    let mut plans = fixed_plans();
+    let fixed = plans.len();
+    for _ in 0..cfg.n(60, 3000) { plans.push(random_plan(&mut r)); }
+    // a fresh pair of repositories every 30 scenarios (every scenario forks off the initial operation)
+    let mut envs: Option<(Env, Env)> = None;
+    for (scn, plan) in plans.iter().enumerate() {
+        if scn % 30 == 0 { let accept = (scn / 30) % 3 != 2; envs = Some((Env::new(accept), Env::new(accept))); }
+        let (env, env_c) = envs.as_mut().unwrap();
+        scenario(env, env_c, out, &mut r, scn as u64, plan);
+        out.tally("concurrent.scenario", if scn < fixed { "fixed" } else { "random" });
+    }
+}
+
 pub fn run(cfg: &Cfg, out: &mut Out) {
     std::panic::set_hook(Box::new(|_| {}));
     // the repos live in temp dirs that are removed when the batch ends; prefer a RAM-backed one (many fsyncs)
@@ -250,10 +512,15 @@ pub fn run(cfg: &Cfg, out: &mut Out) {
         // SAFETY: single-threaded at this point
         unsafe { std::env::set_var("TMPDIR", "/dev/shm") };
     }
+    // fixed + random scenarios of concurrent operations with partially enabled indexes first (small cases)
+    let t0 = std::time::Instant::now();
+    concurrent_stream(cfg, out);
+    let t_conc = t0.elapsed().as_secs_f64();
     let mut r = cfg.rng(22);
     let batches = cfg.n(40, 600);
     for b in 0..batches {
         batch(b % 3 != 2, out, &mut r, b, 40);
     }
+    out.note(format!("first: concurrent operations whose changed-path indexes cover different ranges ({} fixed pairings of side kinds [indexed from the start / enabled after 1-2 commits with max_commits 0 or 1 / never / fully rebuilt] x both merge orders, then random ones over random histories), merged with Transaction::merge_operation, more commits on top, optional rebuild; every commit asked through the merged index, files() against a scan of the same commits in an index-less repository ({t_conc:.1} s of the run)", fixed_plans().len()));
     out.note("batches of 40 histories (1 in 4 a diamond whose merge commit carries the automatic content merge of its parents; the others random as in C08: linear / merges / criss-cross / redundant parents, 1 in 6 commit trees conflicted) written into two fresh repos: one with the changed-path index enabled beforehand (1 in 3 histories through concurrent operations merged on reload), one indexed afterwards with max_commits ∈ {3, 17, all}; both same-change settings".to_string());
 }
